@@ -25,7 +25,11 @@ fn try_run_builtin_in_subprocess(
     idx_cmd: usize,
     capture: bool,
 ) -> Option<i32> {
-    if let Some(cr) = try_run_builtin(sh, cl, idx_cmd, capture) {
+    // this runs in the forked child of a pipeline stage, whose stdout and
+    // stderr are already connected (to the next stage, or to the capture
+    // pipes): the builtin writes there, nothing is collected in memory.
+    let _ = capture;
+    if let Some(cr) = try_run_builtin(sh, cl, idx_cmd, false) {
         return Some(cr.status);
     }
     None
